@@ -189,7 +189,7 @@ theorem pinyinCommit_inv {v : Nat} {st st' : PinyinState} {code : Nat} {b : Beha
         exact pinyinBuild_inv hi hfm hfr htone h
 
 /-- `Pinyin::key_press` keeps both syllables composable and never returns `Fuzzy` -/
-theorem pinyinPress_inv {v : Nat} {st st' : PinyinState} {k : KeyEvent} {b : Behavior} (hst : PinyinInv st)
+theorem pinyinPress_inv {v : Nat} {st st' : PinyinState} {k : KeyEv} {b : Behavior} (hst : PinyinInv st)
     (h : pinyinPress v st k = some (b, st')) : PinyinInv st' := by
   unfold pinyinPress at h
   split at h
